@@ -5,7 +5,7 @@ PROP = dict(
     lean_module="AbraProofs.Properties.C09",
     required_theorems=["C09_chanInv_new", "C09_chan_refines_queue", "C09_chan_refines_queue_runN", "C09_chan_fifo",
                        "C09_read_blocks_only_reader", "C09_blocked_reader_turn", "C09_chan_copy_scalar",
-                       "C09_chan_copy_valid_partial", "C09_chan_copy_mutated_counterexample",
+                       "C09_chan_copy_valid_partial", "C09_chan_copy_graph_partial", "C09_chan_copy_mutated_counterexample",
                        "C09_chan_copy_reclaimed_counterexample"],
     harness_bin="c09",
     # trace cases compare the whole interleaving; the property's statements are checked directly (spec_fail)
@@ -13,14 +13,16 @@ PROP = dict(
     rule="programs (quick 240 / thorough 3000), each under the budgets {1,2,3,7,100} and two random cyclic schedules: half "
          "producer/consumer programs (5 shapes, <=3 tasks, <=3 channels, 7 payload kinds incl. string/tuple/struct/array, a "
          "third of them with an extra task blocked for ever on a never-written channel), half nested values of 12 types sent "
-         "main->task or task->main with mutations on both sides after the hand-over. spec_fail: per channel the hook's popped "
+         "main->task or task->main with mutations on both sides after the hand-over, plus shared and cyclic payloads (one Box twice "
+         "in an array, a struct containing itself, one array under two fields, the same array written twice = two independent "
+         "copies). spec_fail: per channel the hook's popped "
          "(bits,tag) sequence is a prefix of the pushed sequence (order, once); output and final value equal those of a "
          "sequential oracle program without tasks/channels (producer/consumer) or the renderings computed in Rust (nested "
          "values: as written; receiver's mutations; sender's later mutations invisible). Model cases: one scheduler trace per "
-         "program and `heapcopy <value>` for what the reader received; non-trivial = the trace has a blocked read or the "
+         "program, `heapcopy <value>` for what the reader received and `heapalias` for shared/cyclic payloads; non-trivial = the trace has a blocked read or the "
          "value has a heap object. Heap payloads stay inside the hypothesis of C09_chan_copy_valid_partial (sender keeps "
          "the value alive and unmutated until the read); the two D23 shapes are replayed separately",
-    nontrivial=lambda req, imp: (".b" in imp) or (req.startswith("heapcopy") and ("(" in req or "'" in req)),
+    nontrivial=lambda req, imp: (".b" in imp) or (req.startswith("heap") and ("(" in req or "'" in req)),
     trusted_base=COMMON_TB + [
         "hook verif_sched in abra_core/src/vm.rs (cfg abra_verif): read-only event log incl. raw channel payloads",
         "Rust VecDeque under Arc<Mutex<_>> assumed to be a FIFO queue; heap model Abra.Heap (objects stay put until their thread is dropped or stores into them)",
